@@ -34,7 +34,13 @@ Theorem C09_const_ok : forall lo hi x v, const_spec lo hi x = Ok v <-> v = x /\ 
 Proof. exact const_spec_ok. Qed.
 Theorem C09_const_panic : forall lo hi x, const_spec lo hi x = Panic <-> ~ (lo <= x <= hi).
 Proof. exact const_spec_panic. Qed.
+Theorem C09_const_never_err : forall lo hi x (e : unit), const_spec lo hi x <> Err e.
+Proof. exact const_spec_never_err. Qed.
 (** Sign predicates agree with the sign of the exact integer. *)
+Theorem C09_zb_sign_trichotomy : forall a,
+  (zb_is_positive a = true /\ zb_is_negative a = false) \/ (zb_is_positive a = false /\ zb_is_negative a = true)
+  \/ (a = 0 /\ zb_is_positive a = false /\ zb_is_negative a = false).
+Proof. exact zb_sign_trichotomy. Qed.
 Theorem C09_zb_is_positive : forall a, zb_is_positive a = true <-> 0 < a.
 Proof. exact zb_is_positive_spec. Qed.
 Theorem C09_zb_is_negative : forall a, zb_is_negative a = true <-> a < 0.
